@@ -208,7 +208,14 @@ def run_sampler_cases(ctx, n, variant):
             ctx.validated()
         else:
             ret = res[0]
-            impl = ret if isinstance(ret, str) else {str(tuple(k.shape)): v.flatten().tolist() for k, v in ret.items()}
+            if isinstance(ret, str):
+                impl = ret
+            elif isinstance(ret, dict):
+                impl = {str(tuple(k.shape)): v.flatten().tolist() for k, v in ret.items()}
+            elif torch.is_tensor(ret):
+                impl = {"shape": list(ret.shape), "data": ret.flatten().tolist()[:4000]}
+            else:
+                impl = repr(ret)[:2000]
             ctx.mismatch(c["comp"], c["sample"], impl, rep[:2000], oracle=case_oracle, note="driver line: " + c["line"][:1500])
 
 
